@@ -1,0 +1,38 @@
+//! Hooks used only by external verification harnesses (cargo feature `verif-hooks`).
+//!
+//! * [`now`]: the clock tarpc reads for deadlines. With the feature on it is tokio's clock, so a
+//!   paused runtime gives deterministic, steppable time.
+//! * [`set_yield_hook`] / [`yield_point`]: lets a single-threaded harness run other tasks between
+//!   the steps of the client call guard's `drop`.
+
+use std::{cell::RefCell, time::Instant};
+
+/// The current instant according to tokio's (possibly paused) clock.
+pub fn now() -> Instant {
+    tokio::time::Instant::now().into_std()
+}
+
+type Hook = Box<dyn FnMut(&'static str, u64)>;
+
+thread_local! {
+    static YIELD_HOOK: RefCell<Option<Hook>> = const { RefCell::new(None) };
+}
+
+/// Installs (or clears) the callback invoked at yield points on this thread.
+pub fn set_yield_hook(hook: Option<Hook>) {
+    YIELD_HOOK.with(|h| *h.borrow_mut() = hook);
+}
+
+/// Invokes the installed callback, if any. Re-entrant calls are ignored.
+pub fn yield_point(site: &'static str, request_id: u64) {
+    let hook = YIELD_HOOK.with(|h| h.borrow_mut().take());
+    if let Some(mut hook) = hook {
+        hook(site, request_id);
+        YIELD_HOOK.with(|h| {
+            let mut slot = h.borrow_mut();
+            if slot.is_none() {
+                *slot = Some(hook);
+            }
+        });
+    }
+}
